@@ -27,7 +27,7 @@ def abstract_post(sess, o, out):
     cfg = sess.cfg
     if not o.get('exists'):
         return {'gone': True, 'out': out, 'rows': [], 'tail': 0, 'descr': {'k': 'absent'}, 'readme': {'k': 'absent'},
-                'meta': {'k': 'absent'}, 'hlen': 0, 'mode': 'r', 'fresh': [-1]}
+                'meta': {'k': 'absent'}, 'hlen': 0, 'mode': 'r', 'mmode': 'r', 'fresh': [-1]}
     tb = o['tail_bytes']
     tail = 0 if tb == 0 else max(1, min(3, round(4 * tb / cfg.rowbytes)))
     fr = o['fresh']
@@ -35,7 +35,7 @@ def abstract_post(sess, o, out):
             'descr': o['descr'] if o['descr'].get('k') == 'ok' else {'k': str(o['descr'].get('k'))},
             'readme': o['readme'] if o['readme'].get('k') == 'ok' else {'k': str(o['readme'].get('k'))},
             'meta': {'k': 'ok', 'd': o['meta']['d']} if o['meta'].get('k') == 'ok' else {'k': o['meta']['k']},
-            'hlen': o['live'].get('hlen', -1), 'mode': o['live'].get('mode', '?'),
+            'hlen': o['live'].get('hlen', -1), 'mode': o['live'].get('mode', '?'), 'mmode': o['live'].get('mmode', '?'),
             'fresh': [-1] if 'raises' in fr else list(fr['rows'])}
 
 
@@ -55,8 +55,8 @@ def random_history(args):
         events = []
         for _ in range(nops):
             n = len(sess.a) if sess.a is not None else 0
-            kind = rnd.choices(['append', 'iterappend', 'badappend', 'truncate', 'setitem', 'mode', 'reopen', 'meta', 'noniter'],
-                               weights=[4, 6, 1, 4, 3, 2, 2, 4, 0.3])[0]
+            kind = rnd.choices(['append', 'iterappend', 'badappend', 'truncate', 'setitem', 'mode', 'reopen', 'meta', 'noniter',
+                                'metamode'], weights=[4, 6, 1, 4, 3, 2, 2, 4, 0.3, 1])[0]
 
             def chunk():
                 return [rnd.randrange(1, NIDS + 1) for _ in range(rnd.choice([0, 1, 1, 2, 3, 5] if big else [0, 1, 2]))]
@@ -101,6 +101,10 @@ def random_history(args):
                 m = rnd.choice(['r', 'r+', 'r+'])
                 ev = {'op': 'Reopen', 'm': m}
                 call = ('Reopen', [m])
+            elif kind == 'metamode':
+                m = rnd.choice(['r', 'r+'])
+                ev = {'op': 'SetMetaMode', 'm': m}
+                call = ('SetMetaMode', [m])
             else:
                 kd = rnd.choice(['update', 'setitem', 'update0', 'updatebad', 'pop', 'popd', 'popitem', 'del'])
                 key, v = rnd.choice(['k1', 'k2']), rnd.choice([1, 2])
@@ -154,7 +158,7 @@ c_RowIds == 1..%d
 c_Ints == -100000..100000
 c_Keys == {"k1", "k2"}
 c_Vals == {1, 2}
-c_Ops == {"append", "truncate", "setitem", "mode", "reopen", "meta", "delete"}
+c_Ops == {"append", "truncate", "setitem", "mode", "reopen", "meta", "delete", "metamode"}
 c_Zero == {0}
 c_Modes == {"r", "r+"}
 c_Focus == "%s"
